@@ -9,7 +9,7 @@ LEVEL = "exploration"
 RULE = ("one content class of n paths (n<=3 quick, <=4 thorough; 25-byte or 20000-byte files alternately, so that both the pass-through and the re-hashing code paths count replicas) plus a decoy of the same size: every set partition of "
         "the paths into inodes (hard links), every placement into roots r1/r1x (one name a string prefix of the other) and a sub-directory, optional "
         "replacement of a path by a relative/absolute symlink to another member; x {none,-H,--isolate,-S,-S -H,-L,"
-        "-L -S,--isolate -H} x {--rf-over 0..3, --rf-under 1..3, --unique} x root order; overlapping input paths (r1/sub before / after r1, r1/sub/deep with r1/sub/..) x {none, -H}; spelling sub-space: the same "
+        "-L -S,--isolate -H} x {--rf-over 0..3, --rf-under 1..3, --unique} x root order; names whose components concatenate to the same bytes (a/b, ab) as hard links and as copies; overlapping input paths (r1/sub before / after r1, r1/sub/deep with r1/sub/..) x {none, -H}; spelling sub-space: the same "
         "scenarios with roots spelled absolute, relative, ./r, r/, r/../r, through a directory symlink, and relative to --base-dir with the command started elsewhere. Oracle: "
         "replica count from the statement (distinct inodes, paths under -H, roots under --isolate), strict filter, "
         "all paths of a reported class listed, same verdict for every spelling. Non-trivial = class with >= 2 paths "
@@ -152,6 +152,21 @@ def cases(tier, seed):
                                             "filter": " ".join(flt) or "default", "spelling": "overlap", "order": order}
                                     out.append({"tree": tree, "roots": order, "args": ["--min", "0"] + flags + flt,
                                                 "meta": meta, "spellings": ["rel"]})
+    # names whose components concatenate to the same bytes (a/b vs ab): hard links of one file / plain copies
+    collide = [
+        ([{"p": "r1/a/b", "k": "file", "c": ["lit", "same-content-of-the-class"]}, {"p": "r1/ab", "k": "hard", "to": "r1/a/b"},
+          {"p": "r1/c", "k": "file", "c": ["lit", "same-content-of-the-class"]}, {"p": "r1x/d", "k": "dir"}], [0, 0, 1]),
+        ([{"p": "r1/a/b", "k": "file", "c": ["lit", "same-content-of-the-class"]}, {"p": "r1/ab", "k": "file", "c": ["lit", "same-content-of-the-class"]},
+          {"p": "r1x/a/b", "k": "file", "c": ["lit", "same-content-of-the-class"]}], [0, 1, 2]),
+    ]
+    for tree, rgs in collide:
+        for flags in ([], ["-H"], ["-L"], ["-L", "-H"], ["--isolate"]):
+            for flt in FILTERS:
+                if "--isolate" in flags and flt in (["--rf-over", "2"], ["--rf-over", "3"], ["--rf-under", "3"]):
+                    continue
+                meta = {"n": 3, "rgs": rgs, "placement": [0, 0, 0], "sym": None, "flags": flags,
+                        "filter": " ".join(flt) or "default", "spelling": "colliding_names", "order": ["r1", "r1x"]}
+                out.append({"tree": tree, "roots": ["r1", "r1x"], "args": ["--min", "0"] + flags + flt, "meta": meta, "spellings": ["rel"]})
     return out
 
 
